@@ -475,18 +475,53 @@ func (vm *progVM) step() *progStep {
 		for i := range w {
 			w[i] = genWord(r)
 		}
+		if n > 0 && r.Chance(25) { // not normalized by whole words
+			for i, k := n-1, r.Range(1, n); i >= n-k; i-- {
+				w[i] = 0
+			}
+		}
 		e := r.LeadExp()
 		if r.Chance(5) {
 			e = int64(r.U64())
 		}
 		st.op = fmt.Sprintf("SetBitsExp(%v,%d)", w, e)
+		wantP0 := setBitsExpRefPrec(w)
 		st.precRule = func(pre hx.Raw, got uint) string {
 			if pre.Prec != 0 {
 				return keepPrec(pre, got)
 			}
-			return "" // the precision chosen for a precision-0 receiver is not documented
+			// The precision chosen for a precision-0 receiver is not documented, the normalization of the slice is:
+			// the same mantissa passed without its most significant zero words must give the same precision.
+			if got != wantP0 {
+				return fmt.Sprintf("SetBitsExp on a precision-0 receiver left precision %d, the same mantissa without its leading zero words gives %d", got, wantP0)
+			}
+			return ""
 		}
 		f = func() { z.SetBitsExp(w, e) }
+		if st.pre[st.z].Class == 1 && r.Chance(35) {
+			// the documented idiom: BitsExp, edit the words in place, SetBitsExp with that very slice
+			kind, k, fill := r.Intn(5), r.Range(1, 18), genWord(r)
+			st.op = fmt.Sprintf("SetBitsExp(own slice edited in place, kind %d/%d/%d)", kind, k, fill)
+			f = func() {
+				m, e0 := z.BitsExp()
+				n := len(m)
+				switch kind {
+				case 0: // clear leading digits of the top word
+					m[n-1] %= decimal.Word(math.Pow10(k))
+				case 1: // clear the top word(s)
+					for i := n - 1; i >= 0 && i >= n-k; i-- {
+						m[i] = 0
+					}
+				case 2: // all zero
+					for i := range m {
+						m[i] = 0
+					}
+				case 3: // overwrite a word
+					m[k%n] = fill
+				}
+				z.SetBitsExp(m, int64(e0))
+			}
+		}
 	case op < 83:
 		sg := r.Bool()
 		st.op = fmt.Sprintf("SetInf(%v)", sg)
@@ -666,4 +701,14 @@ func operandBrief(st *progStep) []string {
 		out = append(out, briefRaw(st.pre[a]))
 	}
 	return out
+}
+
+// setBitsExpRefPrec: the precision a fresh precision-0 receiver gets from SetBitsExp for w stripped of its most
+// significant zero words (SetBitsExp is documented to normalize its argument itself).
+func setBitsExpRefPrec(w []decimal.Word) uint {
+	n := len(w)
+	for n > 0 && w[n-1] == 0 {
+		n--
+	}
+	return new(decimal.Decimal).SetBitsExp(cloneW(w[:n]), 0).Prec()
 }
